@@ -2159,7 +2159,9 @@ func (c *OutputConfig) WriteLine(file OutWriter) error {
 			val := *v
 			idx := col.VarIndex1
 			if idx >= len(val) {
-				fmt.Println("unknown index")
+				// an index behind the end of the slice has no value (like an index behind the end of an array)
+				outLine.Add(col.FormatStr, c.NotAvailableValue)
+				continue
 			}
 			valAtIdx := val[idx]
 			if col.Modifier != 0 {
